@@ -2,8 +2,9 @@
 from sa.core import Repo, Report
 
 EXPLANATION = ("static analysis: time_respecting_paths(sample=1) (temporal_dag inlined, simple paths computed on the recorded "
-               "DAG) is interpreted on symbolic temporal graphs - 3 nodes, 2 stored pairs (thorough: 3) and 3-cycles through the "
-               "source, snapshot ids t+1, t+2, t+4 with a silent instant, presence of every pair at every id enumerated, every "
+               "DAG) is interpreted on symbolic temporal graphs - 3 nodes, 2 stored pairs (thorough: 3), 3-cycles through the "
+               "source, a diamond, and a 4-node walk over four ids that passes through the target and returns to it; "
+               "snapshot ids t+1, t+2, t+4 with a silent instant, presence of every pair at every id enumerated, every "
                "node as source, v omitted or given, whole range or an inner window - and the returned set is compared with the "
                "brute-force enumeration, by the checker, of all hop sequences that satisfy the conditions of C12; "
                "all_time_respecting_paths (min_t omitted or given) is interpreted on the same graphs and must map every pair "
